@@ -850,7 +850,11 @@ func newC03Interp() (*c03Interp, error) {
 }
 
 // eval compiles and runs one input, separating compile-time rejection from run-time panic.
-func (it *c03Interp) eval(src string) (out c03Outcome) {
+func (it *c03Interp) eval(src string) (out c03Outcome) { return it.evalFresh(src, false) }
+
+// evalFresh: with fresh, a slice result must be a new slice at every evaluation (conversions
+// from strings)
+func (it *c03Interp) evalFresh(src string, fresh bool) (out c03Outcome) {
 	phase := "compile-error"
 	defer func() {
 		if r := recover(); r != nil {
@@ -868,6 +872,29 @@ func (it *c03Interp) eval(src string) (out c03Outcome) {
 		}
 		out.Key = c03Project(rv).Key()
 		out.Type = c03CanonName(ts[0].String())
+		// a conversion to a slice type yields a NEW slice at every evaluation: change the result
+		// and evaluate the same compiled expression again
+		if fresh && rv.Kind() == reflect.Slice && rv.Len() > 0 && rv.Index(0).CanSet() {
+			el := rv.Index(0)
+			switch el.Kind() {
+			case reflect.Uint8, reflect.Uint16, reflect.Uint32, reflect.Uint64, reflect.Uint:
+				el.SetUint(el.Uint() ^ 1)
+			case reflect.Int8, reflect.Int16, reflect.Int32, reflect.Int64, reflect.Int:
+				el.SetInt(el.Int() ^ 1)
+			default:
+				return out
+			}
+			vs2, _ := it.g.Ir.RunExpr(e)
+			if len(vs2) >= 1 && vs2[0].IsValid() {
+				rv2 := vs2[0].ReflectValue()
+				for rv2.Kind() == reflect.Interface && !rv2.IsNil() {
+					rv2 = rv2.Elem()
+				}
+				if k2 := c03Project(rv2).Key(); k2 != out.Key {
+					out.Key = k2 + " (second evaluation, after the first result was modified: the slice is shared)"
+				}
+			}
+		}
 	}
 	return out
 }
@@ -898,7 +925,7 @@ func (it *c03Interp) run(cell *c03Cell, val c03Val, render string) (c03Outcome, 
 			return c03Outcome{Kind: "setup", Msg: fmt.Sprintf("operand %s holds %v, intended %s of type %s", p.Operand, o, want, cell.Src.Canon())}, p
 		}
 	}
-	return it.eval(p.Expr), p
+	return it.evalFresh(p.Expr, c03Class(cell.Src.U) == "string"), p
 }
 
 // ---------------------------------------------------------------------------------------
